@@ -546,8 +546,8 @@ def gen_history(rng, profile, length):
             h = rng.choice(live)
             queue = [list(x) for x in rng.choice(motifs)(rng, h, rows, kinds)]
         op = queue.pop(0) if queue else basic()
-        if rng.random() < profile.get('p_fault', 0.0) and op[0] in ('create', 'get', 'select', 'byalt', 'read', 'setattr', 'set',
-                                                                  'syncupdate', 'sync', 'destroy', 'pickle', 'expire'):
+        if rng.random() < profile.get('p_fault', 0.0) and op[0] in profile.get('fault_ops', (
+                'create', 'get', 'select', 'byalt', 'read', 'setattr', 'set', 'syncupdate', 'sync', 'destroy', 'pickle', 'expire')):
             op = ['fault', rng.choice([0, 0, 1, 1, 2]), op]
         ops.append(op)
         # bookkeeping guesses (only steer generation; the truth is what the implementation does)
@@ -603,6 +603,12 @@ def motif_lazy_refetch(rng, h, rows, kinds):
     c = rng.choice([0, 2])
     return [['setattr', h, c, rng.randint(0, 4)], ['select', 1, None, None], ['select', rng.choice(kinds), None, None],
             ['syncupdate', h], ['read', h, c]]
+
+
+def motif_lazy_expire(rng, h, rows, kinds):
+    """assign on a (probably lazy) object, expire it, read, flush, read: the discarded value must not come back"""
+    c = rng.choice([0, 2])
+    return [['setattr', h, c, rng.randint(0, 4)], ['expire', h], ['read', h, c], ['syncupdate', h], ['read', h, c]]
 
 
 def motif_expire_get(rng, h, rows, kinds):
